@@ -392,6 +392,37 @@ fn main() {
         sink.merge(sk);
     }
 
+    // (L) opaque records (application data, unknown types) whose payload is shaped like a TLS 1.3 inner plaintext: a whole
+    //     handshake message / alert, a content-type byte, zero padding. The header that comes back is the wire header.
+    {
+        let mut inner: Vec<Vec<u8>> = vcommon::catalogue::small_handshake_messages().into_iter().map(|w| w.buf).filter(|b| b.len() <= 200).collect();
+        inner.extend(vcommon::catalogue::tls13_messages().into_iter().map(|w| w.buf).filter(|b| b.len() <= 200));
+        inner.push(vec![1, 0]);
+        inner.push(vec![2, 40]);
+        let sl = par_run(run.threads, inner.len(), |i, sink| {
+            for ty in [0x17u8, 0x19, 0x00] {
+                for ver in [0x0303u16, 0x0301, 0x0304] {
+                    for ct in [0x16u8, 0x15, 0x17, 0x14, 0x18] {
+                        for pad in 0..=2usize {
+                            let mut p = inner[i].clone();
+                            p.push(ct);
+                            p.extend(std::iter::repeat(0u8).take(pad));
+                            let mut b = vec![ty, (ver >> 8) as u8, ver as u8, (p.len() >> 8) as u8, p.len() as u8];
+                            b.extend_from_slice(&p);
+                            b.extend([0x17, 0x03]);
+                            for e in [b.len() - 2, b.len(), b.len() - 3] {
+                                for t in [&PLAINTEXT, &ENCRYPTED, &RAW_RECORD] {
+                                    one(t, &b[..e], sink);
+                                }
+                            }
+                        }
+                    }
+                }
+            }
+        });
+        sink.merge(sl);
+    }
+
     // (F) the cap does not depend on the version: all 65536 versions x lengths around the cap
     let sf = par_run(run.threads, 256, |k, sink| {
         let mut buf = vec![0u8; 5 + 64];
